@@ -246,6 +246,9 @@ OPTIONAL_RULES: list[Rule] = [
     *[R(c, f"{f}(pp)", {"pp": "fs_path_existing"}, setup="import os\nfrom pathlib import Path\n", cls="L", fs=True, annot={"pp": "Path"})
       for c, f in ((146, "os.path.isfile"), (146, "os.path.islink"), (155, "os.path.getmtime"), (155, "os.path.getatime"), (155, "os.path.getctime"), (141, "os.path.exists"))],
     R(144, "os.unlink(p)", {"p": "fs_name"}, setup="import os\nfrom pathlib import Path\n", cls="L", fs=True, mode="stmt"),
+    # FURB159: the strip family with explicit characters
+    *[R(159, f"s.{a}({x}).{b}({y})", {"s": "str"}) for a, b in (("lstrip", "rstrip"), ("rstrip", "lstrip"), ("strip", "lstrip"), ("lstrip", "lstrip"), ("rstrip", "strip"))
+      for x, y in (("'x'", "'x'"), ("'ab'", "'ba'"), ("'a'", "'b'"), ("'b'", "'a'"), ("' '", "' '"))],
     # FURB163: every base
     *[R(163, f"math.log(v, {b})", {"v": "posfloat"}, setup="import math\n", cls="L") for b in ("2", "10", "math.e", "2.0", "10.0", "8", "math.pi")],
     # FURB161
